@@ -281,7 +281,7 @@ func (h *heap) add(l *live) {
 
 // step performs one tape-chosen operation; it returns a description.
 func (h *heap) step(t *verifsim.Tape) (string, *core.Violation) {
-	switch op := t.Intn(17); op {
+	switch op := t.Intn(19); op {
 	case 0, 1, 2: // NewSet from a buffer
 		n := t.Intn(6)
 		buf := make([]types.Value, 0, n+2)
@@ -474,6 +474,51 @@ func (h *heap) step(t *verifsim.Tape) (string, *core.Violation) {
 		}
 		h.add(&live{item: item{out, l.m}})
 		return "Cedar text round trip of " + l.m.String(), nil
+	case 16: // near twin: the same shape, one scalar leaf replaced by a different value with the same hash
+		if len(h.vals) == 0 {
+			return "noop", nil
+		}
+		l := h.vals[t.Intn(len(h.vals))]
+		if l.m.kind == 's' {
+			return "noop", nil
+		}
+		nm, changed := nearTwin(l.m, t)
+		if !changed {
+			return "noop", nil
+		}
+		h.add(&live{item: item{buildFromModel(nm, t), nm}})
+		return "near twin of " + l.m.String() + ": " + nm.String() + " (one leaf swapped for a value with the same internal hash)", nil
+	case 17: // decode a hand-written JSON array that repeats members (not something MarshalJSON emits)
+		n := 2 + t.Intn(4)
+		var ms []*mval
+		var parts []string
+		for i := 0; i < n; i++ {
+			var it item
+			if i > 0 && t.Intn(3) != 0 {
+				k := t.Intn(i)
+				it = item{nil, ms[k]}
+				parts = append(parts, parts[k]) // a repeat
+				ms = append(ms, ms[k])
+				continue
+			}
+			it = h.pickItem(t, 0)
+			b, err := json.Marshal(it.v)
+			if err != nil {
+				return "", viol("json-encode-error", "json.Marshal failed: %v", err)
+			}
+			parts = append(parts, string(b))
+			ms = append(ms, it.m)
+		}
+		if t.Bool() {
+			sort.Strings(parts) // repeats become neighbours
+		}
+		doc := "[" + strings.Join(parts, ",") + "]"
+		var out types.Value
+		if err := types.UnmarshalJSON([]byte(doc), &out); err != nil {
+			return "", viol("json-decode-error", "decoding %s failed: %v", doc, err)
+		}
+		h.add(&live{item: item{out, mset(ms)}})
+		return "decode the hand-written JSON array " + doc, nil
 	case 15: // decode an entity uid from a caller-owned byte buffer, then reuse the buffer
 		src := []int{12, 13, 14}[t.Intn(3)]
 		want := scalars[src].(types.EntityUID)
@@ -559,6 +604,57 @@ func (h *heap) step(t *verifsim.Tape) (string, *core.Violation) {
 			return "rebuild a set from its own members in another order with a duplicate", nil
 		}
 		return "noop", nil
+	}
+}
+
+// collisionPartner maps a universe scalar to another one with the same internal hash.
+var collisionPartner = map[int][]int{0: {1, 2, 3, 4}, 1: {0, 2, 3, 4}, 2: {0, 1, 3}, 3: {0, 1, 4}, 4: {0, 1, 2}, 5: {6, 19, 20}, 6: {5, 19, 20}, 40: {41, 42, 43}, 44: {45, 46, 47}}
+
+// nearTwin copies the model and replaces one scalar leaf (the first that has a collision
+// partner, in a deterministic walk) by a different scalar with the same internal hash.
+func nearTwin(m *mval, t *verifsim.Tape) (*mval, bool) {
+	switch m.kind {
+	case 's':
+		if ps, ok := collisionPartner[m.idx]; ok {
+			return mscalar(ps[t.Intn(len(ps))]), true
+		}
+		return m, false
+	case 'S':
+		out := &mval{kind: 'S'}
+		changed := false
+		for _, e := range m.elems {
+			if !changed {
+				ne, c := nearTwin(e, t)
+				if c && !mcontains(m, ne) {
+					out.elems = append(out.elems, ne)
+					changed = true
+					continue
+				}
+			}
+			out.elems = append(out.elems, e)
+		}
+		return out, changed
+	default:
+		out := &mval{kind: 'R', fields: map[string]*mval{}}
+		changed := false
+		ks := make([]string, 0, len(m.fields))
+		for k := range m.fields {
+			ks = append(ks, k)
+		}
+		sort.Strings(ks)
+		for _, k := range ks {
+			e := m.fields[k]
+			if !changed {
+				ne, c := nearTwin(e, t)
+				if c {
+					out.fields[k] = ne
+					changed = true
+					continue
+				}
+			}
+			out.fields[k] = e
+		}
+		return out, changed
 	}
 }
 
